@@ -114,7 +114,9 @@ def lagging_crash(variant):
     wd = workdir()
     try:
         db = os.path.join(wd, "db")
-        run_fjv(prog, dbdir=db, timeout=300)
+        o0, raw0, rc0 = run_fjv(prog, dbdir=db, timeout=900)
+        if rc0 == -99 or any(v == "err timeout" for v in o0.values()):
+            return None               # cut-off run on an overloaded machine: nothing to judge
         o, raw, rc = run_fjv("open plain\nks h1 cold\nscan - h1 fwd all\nks h0 hot\nget - h0 65\nsize - h0 %s\n"
                              % ("bft0%04d" % 65).encode().hex(), dbdir=db, timeout=120)
         want = ("62=00," if variant == 1 else "") + "63=01,64=02,65=03"
